@@ -130,7 +130,7 @@ theorem funcNode_safe (env : Env) (name : String) (args : List Operand) (bo so :
     (h : ∀ a ∈ args, Safe P (a.run env)) : Safe P ((funcNode name args bo so).run env) := by
   show Safe P (do
       let vs ← args.mapM (fun a => a.run env)
-      let r := if name == "len" then lenFn vs else inFn vs
+      let r := applyFn name vs
       return realValue r bo so)
   exact Safe.bind (mapM_safe env args h) (fun _ => Safe.pure _)
 
